@@ -128,7 +128,7 @@ func spellings(a atom) []string {
 }
 
 func checkC16(w *World, r *Report) {
-	r.Explanation = "Structural clause of C16: (F-1) commonValidation0 rejects a gas price different from the governance gas price (equality, both directions) and a fee gas x price below the governance minimum fee, the contract validation rejects gas below the intrinsic gas of the payload, each guard lying on every path to a success return, and the governance handler of every context is the node's governance controller; (F-2) the routing decision table (C04 N-3) shows every natively executed transaction is debited exactly gas-limit x price once and reports GasUsed = gas limit; (F-3) on the EVM route the transaction's gas limit and the governance gas price reach the EVM message unchanged and GasUsed is the execution result's UsedGas; (F-4) deliverTxSync adds GasToFee(GasUsed, governance price) to the block's fee sum only on the success branch, the fee sum starts at zero in a context created afresh in BeginBlock, has a closed set of writers, and AcctCtrler.EndBlock credits exactly SumFee() to the header's proposer address in the consensus overlay. (F-5) the fee of a contract transaction is credited to the proposer once, by EndBlock: the EVM itself pays nothing to the coinbase — every EVM is created with NoBaseFee and every message carries fee cap = tip cap = 0 (constants), the combination under which go-ethereum's state transition skips the coinbase payment. (F-6) what the EVM charges is charged to the account of the executing block: the wrapper synchronises balances in and out through the exec-selected overlay, the flag being set before the first address is synchronised (C17 E-1, E-2)."
+	r.Explanation = "Structural clause of C16: (F-1) commonValidation0 rejects a gas price different from the governance gas price (equality, both directions) and a fee gas x price below the governance minimum fee, the contract validation rejects gas below the intrinsic gas of the payload, each guard lying on every path to a success return, and the governance handler of every context is the node's governance controller; (F-2) the routing decision table (C04 N-3) shows every natively executed transaction is debited exactly gas-limit x price once and reports GasUsed = gas limit; (F-3) on the EVM route the transaction's gas limit and the governance gas price reach the EVM message unchanged and GasUsed is the execution result's UsedGas; (F-4) deliverTxSync adds GasToFee(GasUsed, governance price) to the block's fee sum only on the success branch, the fee sum starts at zero in a context created afresh in BeginBlock, has a closed set of writers, and AcctCtrler.EndBlock credits exactly SumFee() to the header's proposer address in the consensus overlay. (F-5) the fee of a contract transaction is credited to the proposer once, by EndBlock: the EVM itself pays nothing to the coinbase — every EVM is created with NoBaseFee and every message carries fee cap = tip cap = 0 (constants), the combination under which go-ethereum's state transition skips the coinbase payment. (F-6) what the EVM charges is charged to the account of the executing block: the wrapper synchronises balances in and out through the exec-selected overlay, the flag being set before the first address is synchronised (C17 E-1, E-2). F-1 also requires that what the governance controller answers for GasPrice, MinTrxFee, MinTrxGas and MaxTrxGas is the getter of its embedded current parameter set (promoted, or returned verbatim): never a value kept across calls."
 	r.NotCovered = "UsedGas <= gas limit and gas purchase/refund inside go-ethereum; sums over a block as numbers; blocks without a proposer address."
 	f1(w, r)
 	routingTable(w, r, "F-2")
@@ -146,7 +146,7 @@ func checkC16(w *World, r *Report) {
 	// at the fee step (C04 N-9)
 	codeMarkerStable(w, r, "F-7")
 	r.Floor("F-7", 3, "code marker writers")
-	r.Floor("F-1", 6, "admission guards")
+	r.Floor("F-1", 10, "admission guards")
 	r.Floor("F-2", 18, "decision table rows")
 	r.Floor("F-3", 4, "EVM charge")
 	r.Floor("F-4", 8, "proposer credit")
@@ -180,6 +180,49 @@ func f1(w *World, r *Report) {
 			}
 		}
 		r.Check(ok, "F-1", "GovParams.MinTrxFee", "minimum fee = minTrxGas x gasPrice", "MinTrxFee is not minTrxGas x gasPrice", fnSite(w, mf))
+	}
+	// the handler the guards ask is the governance controller: what it answers for
+	// the price and the minimum fee is computed from its current parameter set at
+	// the time of the call (the promoted GovParams getter, or a method of the
+	// controller that returns exactly that getter's answer) — never a value kept
+	// from an earlier call, which survives a parameter change
+	if gc := w.Named("ctrlers/gov", "GovCtrler"); gc != nil {
+		ms := w.Prog.MethodSets.MethodSet(types.NewPointer(gc))
+		for _, nm := range []string{"GasPrice", "MinTrxFee", "MinTrxGas", "MaxTrxGas"} {
+			sel := ms.Lookup(nil, nm)
+			if sel == nil {
+				for i := 0; i < ms.Len(); i++ {
+					if ms.At(i).Obj().Name() == nm {
+						sel = ms.At(i)
+					}
+				}
+			}
+			if sel == nil {
+				r.Undecided("F-1", "GovCtrler."+nm+":current-parameters", "the governance controller has no method "+nm)
+				continue
+			}
+			fo, _ := sel.Obj().(*types.Func)
+			ok, why := false, ""
+			if rcv := fo.Type().(*types.Signature).Recv(); rcv != nil && namedIs(derefNamed(rcv.Type()), absPkg(pkgCT), "GovParams") {
+				ok = true
+				why = "promoted from the embedded parameter set"
+			} else if fn := w.Prog.MethodValue(sel); fn != nil && fn.Blocks != nil {
+				ok = true
+				why = "returns recv.GovParams." + nm + "()"
+				nRet := 0
+				for _, b := range fn.Blocks {
+					if ret, isR := lastInstr(b).(*ssa.Return); isR && b != fn.Recover {
+						nRet++
+						if c := w.Canon(retResult(ret, 0)); c != "recv.GovParams."+nm+"()" {
+							ok = false
+							why = "returns " + c
+						}
+					}
+				}
+				ok = ok && nRet > 0
+			}
+			r.Check(ok, "F-1", "GovCtrler."+nm+":current-parameters", "the controller's answer is that of its current parameter set ("+why+")", "the governance controller answers "+nm+"() with something other than its current parameter set's value: "+why+" — a value kept across calls outlives a parameter change", "ctrlers/gov/ctrler.go")
+		}
 	}
 	ev := needFn(r, "F-1", w, fref{"ctrlers/vm/evm", "EVMCtrler", "ValidateTrx"})
 	if ev != nil {
